@@ -8,13 +8,17 @@ import ecc_file_x as fx
 import ecc_scen as es
 import ecc_util as eu
 
-LEAN_MODULES = ["Pff.Props.C03"]
+LEAN_MODULES = ["Pff.Props.C03", "Pff.Props.RunC", "Pff.Props.Bridge"]
 PROP_MODULE = "Pff.Props.C03"
 THEOREMS = ["Pff.Ecc.C03_whole_file_partial", "Pff.Ecc.C03_header_file_partial", "Pff.Ecc.C03_exit",
-            "Pff.Layout.C10_agree_whole", "Pff.Layout.C10_agree_header"]
+            "Pff.Layout.C10_agree_whole", "Pff.Layout.C10_agree_header",
+            "Pff.Run.C03_run_pristine",
+            "Pff.Bridge.C03_clean_ops_A",
+            "Pff.Bridge.C03_clean_ops_B"]
 MODELLED = [("pyFileFixity/header_ecc.py", "main"), ("pyFileFixity/header_ecc.py", "entry_assemble"), ("pyFileFixity/header_ecc.py", "compute_ecc_hash"),
             ("pyFileFixity/structural_adaptive_ecc.py", "main"), ("pyFileFixity/structural_adaptive_ecc.py", "stream_entry_assemble"),
             ("pyFileFixity/structural_adaptive_ecc.py", "stream_compute_ecc_hash")]
+MODELLED = sorted(set(MODELLED + fx.WHOLE_RUN_MODELLED + [("pyFileFixity/header_ecc.py", "compute_ecc_hash"), ("pyFileFixity/structural_adaptive_ecc.py", "stream_compute_ecc_hash"), ("pyFileFixity/structural_adaptive_ecc.py", "compute_ecc_hash_from_string")]))
 TRUSTED_BASE = [
     "Lean 4.33.0 kernel; axioms per theorem under coverage.theorems (subset of propext, Classical.choice, Quot.sound)",
     "PROVED PART (…_partial): for a located entry whose recorded size is the file's size, the block loops of both tools report no corruption "
@@ -35,7 +39,7 @@ RULE = ("trees of 1-4 files, sizes {0,1,k-1,k,k+1,2k,size-1,size,size+1,random},
 
 def run(oc, tier, seed, model_available, escalate):
     rng = random.Random(seed * 715827883 + 3)
-    n = 22 if tier == "quick" else 900
+    n = 80 if tier == "quick" else 2500
     if escalate:
         n *= 2
     d = os.path.join(common.scratch(), "c03")
@@ -107,6 +111,15 @@ def run(oc, tier, seed, model_available, escalate):
                         impl.append(res["reply"])
         if it % max(1, n // 4) == 0:
             oc.sample({"params": P.describe(), "tree": {k: len(v) for k, v in tree.items()}, "exit": rc, "stats": stats})
+    # ---- whole-run correspondence: complete `-c` runs replayed into the Lean model of the correction loop (Pff.Run.run)
+    os.makedirs(d, exist_ok=True)
+    wl, wi = fx.whole_run_cases(rng, (40 if tier == "quick" else 300) * (2 if escalate else 1), ["clean", "within", "heavy", "sizes", "sizes"], d, oc)
+    lines += wl
+    impl += wi
+    # ---- generation correspondence: the real ecc file vs the Lean model of generation (the file C03_run_pristine starts from)
+    gl, gi = fx.gen_cases(rng, (30 if tier == "quick" else 400) * (2 if escalate else 1), d, oc)
+    lines += gl
+    impl += gi
     shutil.rmtree(d, ignore_errors=True)
     if model_available:
         model, err = common.run_driver(lines)
